@@ -18,10 +18,18 @@ Props/C18Reloc.lean — C18-R1 (relocation), statement level.
                          negative EQU counts negatively): membership in the classes in arithmetic terms, the stored
                          values in closed form, and what happens outside the classes (the 16-bit field moves by `D`
                          modulo `$10000`).
+(f) `*_movedMod`, `reloc_fixAll_mod`, `reloc_finish_mod`: the third class `MovedMod` (`label ± N` that both layouts
+                         accept; the field moves by `D` modulo `$10000`), whole program with three classes.
+(g) `moved_abs_*`, `reloc_*_movedAbs`, `reloc_*_movedModAbs` (repair batch B3): a label or `label ± N` as CONSTANT OFFSET
+                         of a pointer register (`LDA TABLE,X`, `LDB TBL+1,Y`, `LDD [TBL,U]`): sub-classes `MovedAbs` of
+                         `Moved` and `MovedModAbs` of `MovedMod`; the 16-bit offset field is the label's address.
+(h) `*_movedNeg`, `reloc_fixAll_neg`, `reloc_finish_neg` (repair batch B3): the fourth class `MovedNeg` (`number - label`;
+                         the field moves by MINUS `D` modulo `$10000`), whole program with four classes.
 -/
 import CoCoVerif.Lemmas.RelocAll
 import CoCoVerif.Lemmas.RelocSigned
 import CoCoVerif.Lemmas.RelocMod
+import CoCoVerif.Lemmas.RelocNeg
 import CoCoVerif.Props.C18
 
 namespace CoCo.Props
@@ -337,51 +345,65 @@ theorem reloc_symtab_entry {t : SymTab} {A B : Assembly} (h : AsmRel D t A B)
 
 end whole
 
-/-! ## (e) `label + N`, `label - N` with a SIGNED constant `N` (repair batch B2)
+/-! ## (e) `label + N`, `label - N` with a SIGNED constant `N` (repair batches B2, B3)
 
 Before B2 the sign of the other operand of a label expression was dropped (`A+N` with `N EQU -2` was `A+2`).  Now
-the constant is `signedK k nn` (`-k` when the number carries a minus sign).  `LabelNum as l r t a k nn`: the operands
-are the label of statement `t` (address `a` in the layout `as`) and that number.  Below, `c` stands for
-`signedK k nn`. -/
+the constant is `signedK k nn` (`-k` when the number carries a minus sign).  `LabelNum as l r op t a k nn`: the operands
+are the label of statement `t` (address `a` in the layout `as`) and that number, the label on the left unless `op` is
+`+` (since B3 the operands are combined in the written order).  Below, `c` stands for `signedK k nn`.
+Since B3 both operators behave alike: the result `a ± c` is rejected above `$FFFF`, and a negative one is reduced
+modulo `$10000` by `calculate_address_offset` itself. -/
 
 section signed
 variable {D : Nat} {as as' : List Stmt} {l r : Value} {t a k : Nat} {nn : Bool} {s : Stmt} {m : Mode}
 
 /-- `label + N` (no PCR) in a 16-bit field is in the class `Moved` when its value `a + c` is in `0 .. $FFFF - D` -/
-theorem moved_label_plus (h : LabelNum as l r t a k nn)
+theorem moved_label_plus (h : LabelNum as l r '+' t a k nn)
     (hk : (s.operand.kind == .relative) = false) (hv : s.operand.value = .expr l r '+' m true)
     (hn : s.pkg.needsRes = false) (hf : FieldWide s)
     (h0 : 0 ≤ (a : Int) + signedK k nn) (h1 : (a : Int) + signedK k nn + D ≤ 65535) : Moved D as s :=
-  ⟨hk, hn, .inr (by rw [hv]; exact (numExpr_plus_iff h m).mpr (fun _ => ⟨h0, h1⟩)), hf⟩
+  .inl ⟨hk, hn, .inr (by rw [hv]; exact (numExpr_plus_iff h m).mpr (fun _ => by omega)), hf⟩
 
 /-- `label - N` (no PCR) in a 16-bit field is in the class `Moved` when its value `(a - c) mod $10000` is at most
 `$FFFF - D` -/
-theorem moved_label_minus (h : LabelNum as l r t a k nn)
+theorem moved_label_minus (h : LabelNum as l r '-' t a k nn)
     (hk : (s.operand.kind == .relative) = false) (hv : s.operand.value = .expr l r '-' m true)
     (hn : s.pkg.needsRes = false) (hf : FieldWide s)
     (h1 : ((a : Int) - signedK k nn) % 65536 + D ≤ 65535) : Moved D as s :=
-  ⟨hk, hn, .inr (by rw [hv]; exact (numExpr_minus_iff h m).mpr h1), hf⟩
+  .inl ⟨hk, hn, .inr (by rw [hv]; exact (numExpr_minus_iff h m).mpr (fun _ => h1)), hf⟩
 
-/-- `label + N,PCR` / `label - N,PCR` (an indexed operand whose offset is the label expression) is in the class
-`Unmoved` under the same arithmetic conditions on the TARGET -/
-theorem unmoved_pcr_label_plus (h : LabelNum as l r t a k nn)
+/-- `label + N,PCR` / `label - N,PCR` (an indexed operand with post byte choices whose offset is the label
+expression) is in the class `Unmoved` under the same arithmetic conditions on the TARGET -/
+theorem unmoved_pcr_label_plus (h : LabelNum as l r '+' t a k nn)
     (hk : (s.operand.kind == .relative) = false) (hE : s.operand.value.isAddrExpr = false)
-    (hA : s.operand.value.isAddress = false) (hidx : s.isIdx = true)
+    (hA : s.operand.value.isAddress = false) (hc : s.pkg.choices.isEmpty = false) (hidx : s.isIdx = true)
     (he : s.pkg.additional = .expr l r '+' m true)
     (h0 : 0 ≤ (a : Int) + signedK k nn) (h1 : (a : Int) + signedK k nn + D ≤ 65535) : Unmoved D as s :=
-  .inr (.inl ⟨hk, hE, hA, .inr (.inr (.inr ⟨hidx, by
-    rw [he]; exact (numExpr_plus_iff h m).mpr (fun _ => ⟨h0, h1⟩)⟩))⟩)
+  .inr (.inl ⟨hk, hE, hA, .inr ⟨hc, .inl (.inr (.inr ⟨hidx, by
+    rw [he]; exact (numExpr_plus_iff h m).mpr (fun _ => by omega)⟩))⟩⟩)
 
-theorem unmoved_pcr_label_minus (h : LabelNum as l r t a k nn)
+theorem unmoved_pcr_label_minus (h : LabelNum as l r '-' t a k nn)
     (hk : (s.operand.kind == .relative) = false) (hE : s.operand.value.isAddrExpr = false)
-    (hA : s.operand.value.isAddress = false) (hidx : s.isIdx = true)
+    (hA : s.operand.value.isAddress = false) (hc : s.pkg.choices.isEmpty = false) (hidx : s.isIdx = true)
     (he : s.pkg.additional = .expr l r '-' m true)
     (h1 : ((a : Int) - signedK k nn) % 65536 + D ≤ 65535) : Unmoved D as s :=
-  .inr (.inl ⟨hk, hE, hA, .inr (.inr (.inr ⟨hidx, by rw [he]; exact (numExpr_minus_iff h m).mpr h1⟩))⟩)
+  .inr (.inl ⟨hk, hE, hA, .inr ⟨hc, .inl (.inr (.inr ⟨hidx, by
+    rw [he]; exact (numExpr_minus_iff h m).mpr (fun _ => h1)⟩))⟩⟩)
+
+/-- (repair batch B3) `label ± N,PCR` that both layouts accept (`a ± c + D ≤ $FFFF`), whatever the sign of the target:
+a NEGATIVE target (`A+N,PCR` with `N EQU -258`, `A` at `$0100`) is reduced modulo `$10000` in both layouts, it moves by `D`
+modulo `$10000`, and the displacement — computed modulo `$10000` — is the same: the statement is `Unmoved`.  Before B3
+the magnitude of the negative value was taken and the code changed under relocation (finding
+`reloc_signed_pcr_negative_target`, now `reloc_signed_pcr_negative_target_fixed`). -/
+theorem unmoved_pcr_label_mod {op : Char} (h : LabelNum as l r op t a k nn)
+    (hk : (s.operand.kind == .relative) = false) (hE : s.operand.value.isAddrExpr = false)
+    (hA : s.operand.value.isAddress = false) (hc : s.pkg.choices.isEmpty = false) (hidx : s.isIdx = true)
+    (he : s.pkg.additional = .expr l r op m true) (hb : ModBound D op a k nn) : Unmoved D as s :=
+  .inr (.inl ⟨hk, hE, hA, .inr ⟨hc, .inr ⟨hidx, l, r, op, m, t, a, k, nn, he, h, hb⟩⟩⟩)
 
 /-- (b, signed `+`) `fix_addresses` on `label + N`, value `z = a + c` in `0 .. $FFFF - D`: the original program
 stores `z`, the relocated one `z + D` -/
-theorem reloc_fixOne_label_plus (hpw : PW (AddrShiftI D) as as') (h : LabelNum as l r t a k nn) (i : Nat) (v : Value)
+theorem reloc_fixOne_label_plus (hpw : PW (AddrShiftI D) as as') (h : LabelNum as l r '+' t a k nn) (i : Nat) (v : Value)
     (hk : (s.operand.kind == .relative) = false) (hv : s.operand.value = .expr l r '+' m true)
     (hn : s.pkg.needsRes = false)
     (h0 : 0 ≤ (a : Int) + signedK k nn) (h1 : (a : Int) + signedK k nn + D ≤ 65535) :
@@ -393,35 +415,37 @@ theorem reloc_fixOne_label_plus (hpw : PW (AddrShiftI D) as as') (h : LabelNum a
   have e : (((a + D : Nat) : Int) + signedK k nn).toNat = ((a : Int) + signedK k nn).toNat + D := by omega
   rw [e]; rfl
 
-/-- (b, signed `-`) `fix_addresses` on `label - N`: the original program stores `z = (a - c) mod $10000`, the
-relocated one `(z + D) mod $10000` (no side condition: the subtraction is computed modulo `$10000`) -/
-theorem reloc_fixOne_label_minus (hpw : PW (AddrShiftI D) as as') (h : LabelNum as l r t a k nn) (i : Nat) (v : Value)
+/-- (b, signed `-`) `fix_addresses` on `label - N` that the moved layout accepts (`a - c + D ≤ $FFFF`; since B3 a
+difference above `$FFFF` — possible with a negative `N` — is rejected): the original program stores
+`z = (a - c) mod $10000`, the relocated one `(z + D) mod $10000` -/
+theorem reloc_fixOne_label_minus (hpw : PW (AddrShiftI D) as as') (h : LabelNum as l r '-' t a k nn) (i : Nat) (v : Value)
     (hk : (s.operand.kind == .relative) = false) (hv : s.operand.value = .expr l r '-' m true)
-    (hn : s.pkg.needsRes = false) :
+    (hn : s.pkg.needsRes = false) (h1 : (a : Int) - signedK k nn + D ≤ 65535) :
     fixOne as i s =
       .ok (withAdditional s (.numeric (((a : Int) - signedK k nn) % 65536).toNat (some 4) .extended false)) ∧
     fixOne as' i (s.setAddress v) =
       .ok ((withAdditional s (.numeric (((((a : Int) - signedK k nn) % 65536).toNat + D) % 65536)
         (some 4) .extended false)).setAddress v) := by
-  refine ⟨fixOne_label_minus h i hk hv hn, ?_⟩
-  rw [fixOne_setAddress, fixOne_label_minus (h.reloc hpw) i hk hv hn]
+  refine ⟨fixOne_label_minus h i hk hv hn (by omega), ?_⟩
+  rw [fixOne_setAddress, fixOne_label_minus (h.reloc hpw) i hk hv hn (by omega)]
   have e : ((((a + D : Nat) : Int) - signedK k nn) % 65536).toNat
       = ((((a : Int) - signedK k nn) % 65536).toNat + D) % 65536 := by omega
   rw [e]; rfl
 
 /-- (b, signed `+`, what the model really does) `fix_addresses; fit_operand_width` on `label + N` in a four-digit
-field, in both layouts: the statement is accepted iff the value is in `-$8000 .. $FFFF`, and the field holds the value
-modulo `$10000` — a value below zero is NOT rejected, it is stored in two's complement -/
-theorem reloc_fixFit_label_plus (hpw : PW (AddrShiftI D) as as') (h : LabelNum as l r t a k nn) (i : Nat) (v : Value)
+field, in both layouts: the statement is accepted iff the value is at most `$FFFF`, and the field holds the value
+modulo `$10000` — a value below zero is NOT rejected, `calculate_address_offset` reduces it modulo `$10000` (since B3;
+before, `fit_operand_width` stored it in two's complement down to `-$8000` and rejected it below) -/
+theorem reloc_fixFit_label_plus (hpw : PW (AddrShiftI D) as as') (h : LabelNum as l r '+' t a k nn) (i : Nat) (v : Value)
     (hf : Field4 s)
     (hk : (s.operand.kind == .relative) = false) (hv : s.operand.value = .expr l r '+' m true)
     (hn : s.pkg.needsRes = false) :
     fixFit as i s =
-      (if -32768 ≤ (a : Int) + signedK k nn ∧ (a : Int) + signedK k nn ≤ 65535 then
+      (if (a : Int) + signedK k nn ≤ 65535 then
         .ok (withAdditional s (.numeric (((a : Int) + signedK k nn) % 65536).toNat (some 4) .extended false))
       else .diag) ∧
     fixFit as' i (s.setAddress v) =
-      (if -32768 ≤ (a : Int) + signedK k nn + D ∧ (a : Int) + signedK k nn + D ≤ 65535 then
+      (if (a : Int) + signedK k nn + D ≤ 65535 then
         .ok ((withAdditional s (.numeric (((a : Int) + signedK k nn + D) % 65536).toNat (some 4) .extended false)).setAddress v)
       else .diag) := by
   refine ⟨fixFit_label_plus h i hf hk hv hn, ?_⟩
@@ -430,21 +454,39 @@ theorem reloc_fixFit_label_plus (hpw : PW (AddrShiftI D) as as') (h : LabelNum a
   rw [e]
   split <;> rfl
 
-/-- (b, signed `+`) both layouts accept `label + N` (value in `-$8000 .. $FFFF - D`): the 16-bit field moves by `D`
+/-- (b, signed `-`, what the model really does) the same for `label - N` -/
+theorem reloc_fixFit_label_minus_cases (hpw : PW (AddrShiftI D) as as') (h : LabelNum as l r '-' t a k nn) (i : Nat)
+    (v : Value) (hf : Field4 s)
+    (hk : (s.operand.kind == .relative) = false) (hv : s.operand.value = .expr l r '-' m true)
+    (hn : s.pkg.needsRes = false) :
+    fixFit as i s =
+      (if (a : Int) - signedK k nn ≤ 65535 then
+        .ok (withAdditional s (.numeric (((a : Int) - signedK k nn) % 65536).toNat (some 4) .extended false))
+      else .diag) ∧
+    fixFit as' i (s.setAddress v) =
+      (if (a : Int) - signedK k nn + D ≤ 65535 then
+        .ok ((withAdditional s (.numeric (((a : Int) - signedK k nn + D) % 65536).toNat (some 4) .extended false)).setAddress v)
+      else .diag) := by
+  refine ⟨fixFit_label_minus h i hf hk hv hn, ?_⟩
+  rw [fixFit_setAddress, fixFit_label_minus (h.reloc hpw) i hf hk hv hn]
+  have e : ((a + D : Nat) : Int) - signedK k nn = (a : Int) - signedK k nn + D := by omega
+  rw [e]
+  split <;> rfl
+
+/-- (b, signed `+`) both layouts accept `label + N` (value at most `$FFFF - D`): the 16-bit field moves by `D`
 MODULO `$10000`.  When the value is not negative this is `+ D` (the class `Moved`); when it is negative and
 `a + c + D` is not, the field wraps around (`$FF80` becomes `$0080` for `D = $100`) -/
-theorem reloc_fixFit_label_plus_mod (hpw : PW (AddrShiftI D) as as') (h : LabelNum as l r t a k nn) (i : Nat) (v : Value)
+theorem reloc_fixFit_label_plus_mod (hpw : PW (AddrShiftI D) as as') (h : LabelNum as l r '+' t a k nn) (i : Nat) (v : Value)
     (hf : Field4 s)
     (hk : (s.operand.kind == .relative) = false) (hv : s.operand.value = .expr l r '+' m true)
-    (hn : s.pkg.needsRes = false)
-    (h0 : -32768 ≤ (a : Int) + signedK k nn) (h1 : (a : Int) + signedK k nn + D ≤ 65535) :
+    (hn : s.pkg.needsRes = false) (h1 : (a : Int) + signedK k nn + D ≤ 65535) :
     ∃ x : Nat, x < 65536 ∧ (x : Int) = ((a : Int) + signedK k nn) % 65536 ∧
       fixFit as i s = .ok (withAdditional s (.numeric x (some 4) .extended false)) ∧
       fixFit as' i (s.setAddress v) =
         .ok ((withAdditional s (.numeric ((x + D) % 65536) (some 4) .extended false)).setAddress v) := by
   obtain ⟨e1, e2⟩ := reloc_fixFit_label_plus hpw h i v hf hk hv hn
-  rw [if_pos ⟨h0, by omega⟩] at e1
-  rw [if_pos ⟨by omega, h1⟩] at e2
+  rw [if_pos (by omega)] at e1
+  rw [if_pos h1] at e2
   have p0 : 0 ≤ ((a : Int) + signedK k nn) % 65536 := Int.emod_nonneg _ (by decide)
   have p1 : ((a : Int) + signedK k nn) % 65536 < 65536 := Int.emod_lt_of_pos _ (by decide)
   refine ⟨(((a : Int) + signedK k nn) % 65536).toNat, by omega, by omega, e1, ?_⟩
@@ -453,23 +495,26 @@ theorem reloc_fixFit_label_plus_mod (hpw : PW (AddrShiftI D) as as') (h : LabelN
     omega
   rw [e]
 
-/-- (b, signed `-`) `fix_addresses; fit_operand_width` on `label - N` in a four-digit field: always accepted; the
-field moves by `D` modulo `$10000` -/
-theorem reloc_fixFit_label_minus (hpw : PW (AddrShiftI D) as as') (h : LabelNum as l r t a k nn) (i : Nat) (v : Value)
+/-- (b, signed `-`) both layouts accept `label - N` (value at most `$FFFF - D`; before B3 there was no condition, the
+difference was reduced modulo `$10000` whatever its size): the field moves by `D` modulo `$10000` -/
+theorem reloc_fixFit_label_minus (hpw : PW (AddrShiftI D) as as') (h : LabelNum as l r '-' t a k nn) (i : Nat) (v : Value)
     (hf : Field4 s)
     (hk : (s.operand.kind == .relative) = false) (hv : s.operand.value = .expr l r '-' m true)
-    (hn : s.pkg.needsRes = false) :
+    (hn : s.pkg.needsRes = false) (h1 : (a : Int) - signedK k nn + D ≤ 65535) :
     ∃ x : Nat, x < 65536 ∧ (x : Int) = ((a : Int) - signedK k nn) % 65536 ∧
       fixFit as i s = .ok (withAdditional s (.numeric x (some 4) .extended false)) ∧
       fixFit as' i (s.setAddress v) =
         .ok ((withAdditional s (.numeric ((x + D) % 65536) (some 4) .extended false)).setAddress v) := by
+  obtain ⟨e1, e2⟩ := reloc_fixFit_label_minus_cases hpw h i v hf hk hv hn
+  rw [if_pos (by omega)] at e1
+  rw [if_pos h1] at e2
   have p0 : 0 ≤ ((a : Int) - signedK k nn) % 65536 := Int.emod_nonneg _ (by decide)
   have p1 : ((a : Int) - signedK k nn) % 65536 < 65536 := Int.emod_lt_of_pos _ (by decide)
-  refine ⟨(((a : Int) - signedK k nn) % 65536).toNat, by omega, by omega, fixFit_label_minus h i hf hk hv hn, ?_⟩
-  rw [fixFit_setAddress, fixFit_label_minus (h.reloc hpw) i hf hk hv hn]
-  have e : ((((a + D : Nat) : Int) - signedK k nn) % 65536).toNat
-      = ((((a : Int) - signedK k nn) % 65536).toNat + D) % 65536 := by omega
-  rw [e]; rfl
+  refine ⟨(((a : Int) - signedK k nn) % 65536).toNat, by omega, by omega, e1, ?_⟩
+  rw [e2]
+  have e : (((a : Int) - signedK k nn + D) % 65536).toNat = ((((a : Int) - signedK k nn) % 65536).toNat + D) % 65536 := by
+    omega
+  rw [e]
 
 /-- (c, signed) the emitted bytes of a statement whose four-digit field holds `x` resp. `(x + D) mod $10000` (the
 two theorems above): the code ends with that 16-bit value, big endian; everything before is identical -/
@@ -611,6 +656,250 @@ theorem reloc_finish_mod (h : PW (RelocOut D) as as')
   | diverged => exact .diverged
 
 end modulo
+
+/-! ## (g) a label as constant offset of a pointer register (repair batch B3): `LDA TABLE,X`, `LDB TBL+1,Y`, `LDD [TBL,U]`
+
+Such a statement has no label in its operand VALUE; `translate` marks it `needsRes` WITHOUT post byte choices and takes
+the 16-bit offset form at once (post byte `$89` / `$99` + register); `additional` holds the statement index of the label
+(a plain label) or the label expression.  `fix_addresses` stores the target ADDRESS itself as the offset, so the
+16-bit field moves by `D` like an extended operand: the sub-class `MovedAbs` of `Moved` (and `MovedModAbs` of
+`MovedMod` when the value is only accepted, not bounded).  `[label+1]` (extended indirect with an address expression,
+accepted since B3) has the expression as its operand value and no `needsRes`: it is in the OLD sub-class `MovedRef`
+(`moved_label_plus`). -/
+
+section absolute
+variable {D : Nat} {as as' : List Stmt} {l r : Value} {t a k : Nat} {nn : Bool} {s : Stmt} {m : Mode}
+
+/-- a plain label as constant offset (`LDA TABLE,X`, `LDD [TBL,U]`) in a 16-bit offset field is `Moved`, with no
+arithmetic condition at all -/
+theorem moved_abs_label (hk : (s.operand.kind == .relative) = false) (hE : s.operand.value.isAddrExpr = false)
+    (hA : s.operand.value.isAddress = false) (hn : s.pkg.needsRes = true) (hc : s.pkg.choices.isEmpty = true)
+    (hp : s.pkg.additional.isAddrExpr = false) (hf : FieldWide s) : Moved D as s :=
+  .inr ⟨hk, hE, hA, hn, hc, .inr (.inl hp), hf⟩
+
+/-- `label + N` as constant offset (`LDB TBL+1,Y`) is `Moved` when its value `(a + c) mod $10000`, moved by `D`, is
+at most `$FFFF` -/
+theorem moved_abs_label_plus (h : LabelNum as l r '+' t a k nn)
+    (hk : (s.operand.kind == .relative) = false) (hE : s.operand.value.isAddrExpr = false)
+    (hA : s.operand.value.isAddress = false) (hn : s.pkg.needsRes = true) (hc : s.pkg.choices.isEmpty = true)
+    (hidx : s.isIdx = true) (he : s.pkg.additional = .expr l r '+' m true) (hf : FieldWide s)
+    (h1 : ((a : Int) + signedK k nn) % 65536 + D ≤ 65535) : Moved D as s :=
+  .inr ⟨hk, hE, hA, hn, hc, .inr (.inr ⟨hidx, by rw [he]; exact (numExpr_plus_iff h m).mpr (fun _ => h1)⟩), hf⟩
+
+/-- `label - N` as constant offset (`LDB TBL-1,Y`) -/
+theorem moved_abs_label_minus (h : LabelNum as l r '-' t a k nn)
+    (hk : (s.operand.kind == .relative) = false) (hE : s.operand.value.isAddrExpr = false)
+    (hA : s.operand.value.isAddress = false) (hn : s.pkg.needsRes = true) (hc : s.pkg.choices.isEmpty = true)
+    (hidx : s.isIdx = true) (he : s.pkg.additional = .expr l r '-' m true) (hf : FieldWide s)
+    (h1 : ((a : Int) - signedK k nn) % 65536 + D ≤ 65535) : Moved D as s :=
+  .inr ⟨hk, hE, hA, hn, hc, .inr (.inr ⟨hidx, by rw [he]; exact (numExpr_minus_iff h m).mpr (fun _ => h1)⟩), hf⟩
+
+/-- `label ± N` as constant offset that both layouts accept is `MovedMod` -/
+theorem movedMod_abs_label {op : Char} (h : LabelNum as l r op t a k nn)
+    (hk : (s.operand.kind == .relative) = false) (hv : s.operand.value ≠ .pyNone)
+    (hE : s.operand.value.isAddrExpr = false)
+    (hA : s.operand.value.isAddress = false) (hn : s.pkg.needsRes = true) (hc : s.pkg.choices.isEmpty = true)
+    (hidx : s.isIdx = true) (he : s.pkg.additional = .expr l r op m true) (hf : Field4 s)
+    (hb : ModBound D op a k nn) : MovedMod D as s :=
+  .inr ⟨hk, hv, hE, hA, hn, hc, hidx, hf, l, r, op, m, t, a, k, nn, he, h, hb⟩
+
+/-- (b, constant offset, closed form) `fix_addresses; fit_operand_width` on `LDA TABLE,X` in the two layouts: the
+16-bit offset field holds the ADDRESS of the label, `a` resp. `a + D` -/
+theorem reloc_fixFit_abs_label (hpw : PW (AddrShiftI D) as as') (i : Nat) (v : Value)
+    (hk : (s.operand.kind == .relative) = false) (hv : s.operand.value ≠ .pyNone)
+    (hE : s.operand.value.isAddrExpr = false) (hA : s.operand.value.isAddress = false)
+    (hn : s.pkg.needsRes = true) (hc : s.pkg.choices.isEmpty = true)
+    (hp : s.pkg.additional.isAddrExpr = false) (hi : s.pkg.additional.int? = some t)
+    (ha : addrIntOf as t = some a) (hlt : a + D < 65536) (hf : Field4 s) :
+    fixFit as i s = .ok (withAdditional s (.numeric a (some 4) .extended false)) ∧
+    fixFit as' i (s.setAddress v) =
+      .ok ((withAdditional s (.numeric (a + D) (some 4) .extended false)).setAddress v) := by
+  have key : ∀ (ss : List Stmt) (x : Nat), addrIntOf ss t = some x → x < 65536 →
+      fixFit ss i s = .ok (withAdditional s (.numeric x (some 4) .extended false)) := by
+    intro ss x hx hx'
+    unfold fixFit
+    rw [fixOne_abs_eq _ _ _ hk hv hE hA hn hc, fixPartAbs_eq, fixRelTarget_plain _ _ (.inr hp), hi]
+    dsimp only
+    rw [hx]
+    dsimp only
+    rw [if_pos (by omega)]
+    exact fitWidth_field4_nat hf hx'
+  refine ⟨key as a ha (by omega), ?_⟩
+  rw [fixFit_setAddress, key as' (a + D) (by rw [addrIntOf_reloc hpw, ha]; rfl) hlt]
+  rfl
+
+/-- (b, constant offset) the outcome of `fix_addresses; fit_operand_width` is the same, the 16-bit offset field moved
+by `D` -/
+theorem reloc_fixFit_movedAbs (h : PW (RelocOut D) as as') {i : Nat} {s s' : Stmt}
+    (hs : as[i]? = some s) (hs' : as'[i]? = some s') (hc : MovedAbs D as s) :
+    fixFit as' i s' = (fixFit as i s).map (fun t => (t.shiftAdditional D).setAddress s'.pkg.address) :=
+  reloc_fixFit_moved h hs hs' (.inr hc)
+
+/-- (c, constant offset) the code ends with the 16-bit big-endian offset field holding `x` resp. `x + D`; op code and
+post byte before it are identical -/
+theorem reloc_bytes_movedAbs (h : PW (RelocOut D) as as') {i : Nat} {s s' t t' : Stmt}
+    (hs : as[i]? = some s) (hs' : as'[i]? = some s') (hc : MovedAbs D as s)
+    (ht : fixFit as i s = .ok t) (ht' : fixFit as' i s' = .ok t') {bs : Bytes} (hb : stmtBytes t = some bs) :
+    t' = (t.shiftAdditional D).setAddress s'.pkg.address ∧
+    ∃ pre x, t.pkg.additional.int? = some x ∧ x + D < 65536 ∧ bs = pre ++ [x / 256, x % 256] ∧
+      stmtBytes t' = some (pre ++ [(x + D) / 256, (x + D) % 256]) :=
+  reloc_bytes_moved h hs hs' (.inr hc) ht ht' hb
+
+/-- (b, constant offset, modulo) -/
+theorem reloc_fixFit_movedModAbs (h : PW (RelocOut D) as as') {i : Nat} {s s' : Stmt}
+    (hs : as[i]? = some s) (hs' : as'[i]? = some s') (hc : MovedModAbs D as s) :
+    fixFit as' i s' = (fixFit as i s).map (fun t => (t.shiftAdditionalMod D).setAddress s'.pkg.address) :=
+  reloc_fixFit_movedMod h hs hs' (.inr hc)
+
+/-- (c, constant offset, modulo) -/
+theorem reloc_bytes_movedModAbs (h : PW (RelocOut D) as as') {i : Nat} {s s' t t' : Stmt}
+    (hs : as[i]? = some s) (hs' : as'[i]? = some s') (hc : MovedModAbs D as s)
+    (ht : fixFit as i s = .ok t) (ht' : fixFit as' i s' = .ok t') {bs : Bytes} (hb : stmtBytes t = some bs) :
+    t' = (t.shiftAdditionalMod D).setAddress s'.pkg.address ∧
+    ∃ pre x, t.pkg.additional.int? = some x ∧ x < 65536 ∧ bs = pre ++ [x / 256, x % 256] ∧
+      stmtBytes t' = some (pre ++ [(x + D) % 65536 / 256, (x + D) % 65536 % 256]) :=
+  reloc_bytes_movedMod h hs hs' (.inr hc) ht ht' hb
+
+end absolute
+
+/-! ## (h) the fourth class `MovedNeg` (repair batch B3): `number - label`; the field moves by MINUS `D` modulo `$10000` -/
+
+section negative
+variable {D : Nat} {as as' : List Stmt}
+
+/-- (b, moved backwards), general form -/
+theorem reloc_fixFit_movedNeg' (h : PW (AddrShiftI D) as as') {i : Nat} {s s' : Stmt}
+    (he : s' = s.setAddress s'.pkg.address) (hc : MovedNeg as s) :
+    fixFit as' i s' = (fixFit as i s).map (fun t => (t.shiftAdditionalNeg D).setAddress s'.pkg.address) := by
+  have : fixFit as' i s' = fixFit as' i (s.setAddress s'.pkg.address) := by rw [← he]
+  rw [this, fixFit_setAddress, fixFit_movedNeg h i hc, outcome_map_map]
+
+/-- (b, moved backwards) `number - label` (`FDB 5-L`, `LDX #$4000-L`) in a four-digit field: the same outcome of
+`fix_addresses; fit_operand_width` (accepted), the stored operand value moved by MINUS `D` modulo `$10000` -/
+theorem reloc_fixFit_movedNeg (h : PW (RelocOut D) as as') {i : Nat} {s s' : Stmt}
+    (hs : as[i]? = some s) (hs' : as'[i]? = some s') (hc : MovedNeg as s) :
+    fixFit as' i s' = (fixFit as i s).map (fun t => (t.shiftAdditionalNeg D).setAddress s'.pkg.address) :=
+  reloc_fixFit_movedNeg' (RelocOut.addrShiftI h) (h.2 i s s' hs hs').1 hc
+
+/-- (c, moved backwards), general form: the code ends with a 16-bit big-endian field holding `x` resp.
+`(x - D) mod $10000`; the bytes before that field are identical -/
+theorem reloc_bytes_movedNeg' (h : PW (AddrShiftI D) as as') {i : Nat} {s s' t t' : Stmt}
+    (he : s' = s.setAddress s'.pkg.address) (hc : MovedNeg as s)
+    (ht : fixFit as i s = .ok t) (ht' : fixFit as' i s' = .ok t') {bs : Bytes} (hb : stmtBytes t = some bs) :
+    t' = (t.shiftAdditionalNeg D).setAddress s'.pkg.address ∧
+    ∃ pre x y, t.pkg.additional.int? = some x ∧ x < 65536 ∧ y < 65536 ∧ (y + D) % 65536 = x ∧
+      bs = pre ++ [x / 256, x % 256] ∧ stmtBytes t' = some (pre ++ [y / 256, y % 256]) := by
+  have hmv := reloc_fixFit_movedNeg' h he hc (i := i)
+  rw [ht, ht'] at hmv
+  simp only [Outcome.map_ok, Outcome.ok.injEq] at hmv
+  refine ⟨hmv, ?_⟩
+  obtain ⟨x, hx, e1, _⟩ := fixFit_movedNeg_aux h i hc
+  rw [e1] at ht
+  cases ht
+  obtain ⟨pre, e, hall⟩ := stmtBytes_field4 hx hb
+  refine ⟨pre, x, (x + (65536 - D % 65536)) % 65536, rfl, hx, Nat.mod_lt _ (by decide), by omega, e, ?_⟩
+  rw [hmv, stmtBytes_setAddress]
+  exact hall _ _ (Nat.mod_lt _ (by decide))
+
+/-- (c, moved backwards) -/
+theorem reloc_bytes_movedNeg (h : PW (RelocOut D) as as') {i : Nat} {s s' t t' : Stmt}
+    (hs : as[i]? = some s) (hs' : as'[i]? = some s') (hc : MovedNeg as s)
+    (ht : fixFit as i s = .ok t) (ht' : fixFit as' i s' = .ok t') {bs : Bytes} (hb : stmtBytes t = some bs) :
+    t' = (t.shiftAdditionalNeg D).setAddress s'.pkg.address ∧
+    ∃ pre x y, t.pkg.additional.int? = some x ∧ x < 65536 ∧ y < 65536 ∧ (y + D) % 65536 = x ∧
+      bs = pre ++ [x / 256, x % 256] ∧ stmtBytes t' = some (pre ++ [y / 256, y % 256]) :=
+  reloc_bytes_movedNeg' (RelocOut.addrShiftI h) (h.2 i s s' hs hs').1 hc ht ht' hb
+
+/-- after `fixAll`, four classes: equal except for the address and — for moved statements — the operand field, moved
+by `D` (`Moved`), by `D` modulo `$10000` (`MovedMod`) or by MINUS `D` modulo `$10000` (`MovedNeg`) -/
+def FinalRelNeg (D : Nat) (t t' : Stmt) : Prop :=
+  (t' = t.setAddress t'.pkg.address ∨ t' = (t.shiftAdditional D).setAddress t'.pkg.address ∨
+    t' = (t.shiftAdditionalMod D).setAddress t'.pkg.address ∨
+    t' = (t.shiftAdditionalNeg D).setAddress t'.pkg.address) ∧ AddrShift D t t'
+
+theorem FinalRelMod.toNeg {t t' : Stmt} (h : FinalRelMod D t t') : FinalRelNeg D t t' := by
+  obtain ⟨h1, h2⟩ := h
+  rcases h1 with h1 | h1 | h1
+  · exact ⟨.inl h1, h2⟩
+  · exact ⟨.inr (.inl h1), h2⟩
+  · exact ⟨.inr (.inr (.inl h1)), h2⟩
+
+/-- `fixAll` on a program all of whose statements are in one of the FOUR classes: same outcome kind, and statement
+by statement `FinalRelNeg` -/
+theorem reloc_fixAll_neg (h : PW (RelocOut D) as as')
+    (hcov : ∀ (i : Nat) (s : Stmt), as[i]? = some s →
+      Unmoved D as s ∨ Moved D as s ∨ MovedMod D as s ∨ MovedNeg as s) :
+    OutRel (PW (FinalRelNeg D)) (fixAll as 0 as) (fixAll as' 0 as') := by
+  refine fixAll_outRel as as' 0 h.1 ?_
+  intro j s s' hs hs'
+  simp only [Nat.zero_add]
+  have hrel := (h.2 j s s' hs hs').2
+  rcases hcov j s hs with hc | hc | hc | hc
+  · refine OutRel.of_eq_map (reloc_fixFit_unmoved h hs hs' hc) ?_
+    intro t ht
+    obtain ⟨v, rfl⟩ := fixFit_keeps ht
+    exact ⟨.inl rfl, rfl, hrel.2⟩
+  · refine OutRel.of_eq_map (reloc_fixFit_moved h hs hs' hc) ?_
+    intro t ht
+    obtain ⟨v, rfl⟩ := fixFit_keeps ht
+    exact ⟨.inr (.inl rfl), rfl, hrel.2⟩
+  · refine OutRel.of_eq_map (reloc_fixFit_movedMod h hs hs' hc) ?_
+    intro t ht
+    obtain ⟨v, rfl⟩ := fixFit_keeps ht
+    exact ⟨.inr (.inr (.inl rfl)), rfl, hrel.2⟩
+  · refine OutRel.of_eq_map (reloc_fixFit_movedNeg h hs hs' hc) ?_
+    intro t ht
+    obtain ⟨v, rfl⟩ := fixFit_keeps ht
+    exact ⟨.inr (.inr (.inr rfl)), rfl, hrel.2⟩
+
+theorem FinalRelNeg.row_addr {t t' : Stmt} (h : FinalRelNeg D t t') :
+    t'.row = t.row ∧ t'.pkg.address = shiftV D t.pkg.address := by
+  obtain ⟨h1, _, hw⟩ := h
+  refine ⟨?_, hw.shiftV⟩
+  rcases h1 with h1 | h1 | h1 | h1 <;> rw [h1] <;> rfl
+
+theorem FinalRelNeg.row_operand {t t' : Stmt} (h : FinalRelNeg D t t') :
+    t'.row = t.row ∧ t'.operand = t.operand := by
+  obtain ⟨h1, _⟩ := h
+  rcases h1 with h1 | h1 | h1 | h1 <;> rw [h1] <;> exact ⟨rfl, rfl⟩
+
+/-- as `AsmRelMod`, statements related by `FinalRelNeg` -/
+def AsmRelNeg (D : Nat) (t : SymTab) (A B : Assembly) : Prop :=
+  PW (FinalRelNeg D) A.stmts B.stmts ∧
+  B.symtab = List.zipWith (fun (kv kw : Str × Value) => (kw.1, if kv.2.isAddress then shiftV D kw.2 else kw.2))
+    t A.symtab ∧
+  B.origin = shiftV D A.origin ∧ B.name = A.name
+
+/-- (d, four classes) `fixAll`, `finalSymTab`, origin and name: identical outcome kind, results related by
+`AsmRelNeg` -/
+theorem reloc_finish_neg (h : PW (RelocOut D) as as')
+    (hcov : ∀ (i : Nat) (s : Stmt), as[i]? = some s →
+      Unmoved D as s ∨ Moved D as s ∨ MovedMod D as s ∨ MovedNeg as s) (t : SymTab) :
+    OutRel (AsmRelNeg D t) (finish t as) (finish t as') := by
+  have hfix := reloc_fixAll_neg h hcov
+  unfold finish
+  generalize fixAll as 0 as = o at hfix ⊢
+  generalize fixAll as' 0 as' = o' at hfix ⊢
+  cases hfix with
+  | ok hr =>
+    rename_i fs fs'
+    dsimp only
+    have hsh : PW (AddrShift D) fs fs' := hr.mono (fun _ _ r => r.2)
+    rw [finalSymTab_reloc hsh]
+    cases finalSymTab fs t with
+    | ok r =>
+      simp only [Outcome.map_ok]
+      refine .ok ⟨hr, rfl, ?_, ?_⟩
+      · exact origin_reloc fs fs' .none (hr.mono (fun _ _ r => r.row_addr))
+      · exact name_reloc fs fs' none (hr.mono (fun _ _ r => r.row_operand))
+    | diag => exact .diag
+    | internal => exact .internal
+    | diverged => exact .diverged
+  | diag => exact .diag
+  | internal => exact .internal
+  | diverged => exact .diverged
+
+end negative
 
 /-! ## the special case of the task statement: one ORG, on the first line -/
 
